@@ -388,3 +388,11 @@ Proof.
   { rewrite load_upd_other_block; [|exact L1|exact N5]. apply load_upd_same; [exact Hn|exact Hon]. }
   split; reflexivity.
 Qed.
+
+(* ------------------------------------------------------------------ the start of the program, and helpers for examples *)
+(* the zero-initialised statics satisfy the invariant: an empty queue and an empty record *)
+Lemma term_at_start (extra : mem) : term_at (cglobals ++ extra) 0 0 gb_ibuf 0 gb_icmd.
+Proof. unfold term_at, cell_at. repeat split; try reflexivity; vm_compute; discriminate. Qed.
+(* the first k cells of global block g; the value of a scalar global *)
+Definition peek (m : mem) (g : nat) (k : nat) : list val := match nth_error m g with Some b => firstn k b | None => [] end.
+Definition peek1 (m : mem) (g : nat) : option Z := match nth_error m g with Some [VInt v] => Some v | _ => None end.
